@@ -109,6 +109,22 @@ def gen_bw_edge(rng, idx):
     return pats
 
 
+def gen_bw_deep(rng, npat=500):
+    """Seeded set with HUNDREDS of internal states (3-byte patterns over a 16-symbol alphabet that
+    contains 0x00 and 0xFF): many BASE values per block, so the per-block bookkeeping of used bases
+    and the sanitising pass are exercised on every block, across many evictions when
+    num_free_blocks is small."""
+    alpha = [0x00, 0xFF, 0x01] + rng.sample(range(2, 255), 13)
+    pats = set()
+    while len(pats) < npat:
+        pats.add(bytes(rng.choice(alpha) for _ in range(3)))
+    for a in alpha[:6]:
+        pats.add(bytes([a]))
+    pats = sorted(pats)
+    rng.shuffle(pats)
+    return pats
+
+
 def gen_bw_big(rng, nblocks_min=3):
     """Seeded multi-block set: wide fan-outs over random bytes so that several 256-slot blocks
     are needed, with NUL/0x01/0xFF among the labels."""
